@@ -196,10 +196,15 @@ ThmCompat == AtStart => \A rp \in RPs : \A L \in SmallSets :
                /\ (Satisfies(rp, L) => \A K \in SUBSET L : Compatible(rp, K))
                /\ ((Compatible(rp, L) /\ Card(L) = Copies(rp)) => Satisfies(rp, L))
                /\ (Card(L) > Copies(rp) => ~Compatible(rp, L))
-(* the balancer's move criterion implies the property's clauses nodup and sat *)
-ThmGoodMove == AtStart => \A rp \in RPs : \A L \in SmallSets : \A src \in L : \A tgt \in Ids :
+(* the balancer's move criterion implies the property's clauses nodup and sat - for the settings where
+   its rack arithmetic is sound (x = 0 or y <= 1); ThmGoodMoveAll (all settings) is FALSE: with
+   x >= 1, y >= 2 a replica of the main data center may move to a new rack of another data center
+   (known finding C15-rack-split, reproduced on the real planner) *)
+GoodMoveClaim(rp) == \A L \in SmallSets : \A src \in L : \A tgt \in Ids :
                IsGoodMoveImpl(rp, L, src, tgt) =>
                   (tgt \notin L /\ (Satisfies(rp, L) => Satisfies(rp, (L \ {src}) \cup {tgt})))
+ThmGoodMove == AtStart => \A rp \in {r \in RPs : r[1] = 0 \/ r[2] <= 1} : GoodMoveClaim(rp)
+ThmGoodMoveAll == AtStart => \A rp \in RPs : GoodMoveClaim(rp)
 (* the repair criterion implies the property's clauses nodup and rep *)
 ThmSatisfyImpl == AtStart => \A rp \in RPs : \A L \in SmallSets : \A c \in Ids :
                (L # {} /\ Card(L) < Copies(rp) /\ SatisfyImpl(rp, L, c)) =>
@@ -296,5 +301,7 @@ EcSlotInv == phase = "plan" => \A s \in Ids : EcFree(ec, s) >= 0
 EcRackBound == phase = "plan" => \A v \in {e.vid : e \in ec} : \A k \in Racks :
                  RackCnt(ec, v, k) <= MaxOf(RackCnt(ec0, v, k), IF Card(Racks) >= 2 THEN Target ELSE TotalShards)
 
+(* model-checking runs do not distinguish snapshots by the way they were built *)
+MCView == <<srv, vol, rep, ec, ec0, rep0, mode, phase, steps>>
 Emit == phase # "plan" \/ steps > Len(Servers) \/ PrintT(<<"W", ToJson(hist)>>)
 =============================================================================
